@@ -62,6 +62,7 @@ def choose_shapes(nl, k, rnd):
 
 def pipeline_key(tier, seed, tag):
     files = [vlib.SBEPP_HPP] + vlib.tree_files(os.path.join(vlib.SBEPPC_SRC, "sbepp", "sbeppc"))
+    files.append(os.path.join(vlib.ROOT, "tools", "schemabuild.py"))
     mine = [os.path.join(vlib.SPEC, f) for f in os.listdir(vlib.SPEC) if f.endswith(".tla")]
     mine += [os.path.join(vlib.HARNESS, f) for f in os.listdir(vlib.HARNESS)]
     mine += [os.path.join(vlib.ROOT, "tools", f) for f in ("viewpipe.py", "viewgen.py", "catalogue.py", "schema.py", "vlib.py")]
@@ -240,6 +241,31 @@ def cursor_results(tier, seed):
 
 def visit_results(tier, seed):
     return run_catalogue("visit", catalogue.view_schemas(tier), tier, seed, machine="visit")
+
+
+def gen_schemas(tier, seed):
+    """schemas built by spec/SchemaBuild.tla (TLC simulation, seeded)"""
+    import schemabuild
+    return schemabuild.generated_schemas(10 if tier == "thorough" else 3, seed)
+
+
+def gen_view_results(tier, seed):
+    return run_catalogue("genview", gen_schemas(tier, seed), tier, seed,
+                         configs_for=lambda i, S, base: base if tier == "thorough" else [base[i % len(base)]],
+                         k_for=lambda S: 16 if tier == "thorough" else 5)
+
+
+def gen_cursor_results(tier, seed):
+    # (every instance x landmark x member x wrapper is a transition: the costliest machine gets fewer schemas)
+    return run_catalogue("gencursor", gen_schemas(tier, seed)[:4 if tier == "thorough" else 1], tier, seed, machine="cursor",
+                         configs_for=lambda i, S, base: base if tier == "thorough" else [base[(i + 1) % len(base)]],
+                         k_for=lambda S: 3 if tier == "thorough" else 1)
+
+
+def gen_visit_results(tier, seed):
+    return run_catalogue("genvisit", gen_schemas(tier, seed), tier, seed, machine="visit",
+                         configs_for=lambda i, S, base: base if tier == "thorough" else [base[(i + 2) % len(base)]],
+                         k_for=lambda S: 8 if tier == "thorough" else 3)
 
 
 def header_results(tier, seed):
